@@ -17,6 +17,25 @@ import (
 func gen(r *hx.Rand, n int, tier string, prop string, out *hx.Out) {
 	// fixed regression shapes first
 	fixed(out)
+	// the backoff computation on bounds and attempt counts no run reaches: seconds to hours, up to 70 attempts
+	{
+		g := r.Fork()
+		out.P("#case backoff-grid")
+		ms, sec := int64(1000000), int64(1000000000)
+		mins := []int64{1, 1000, ms, 10 * ms, 50 * ms, sec, 5 * sec, 10 * sec, 60 * sec, 3600 * sec}
+		maxs := []int64{ms, 40 * ms, sec, 60 * sec, 600 * sec, 3600 * sec, 24 * 3600 * sec, 90 * 24 * 3600 * sec}
+		for i := 0; i < 120; i++ {
+			mn, mx := hx.Pick(g, mins), hx.Pick(g, maxs)
+			if mn > mx {
+				mn, mx = mx, mn
+			}
+			att := g.Intn(71)
+			if g.Chance(40) {
+				att = 25 + g.Intn(12) // where min << attempt crosses 2^31..2^36 ns
+			}
+			out.P("backoff %d %d %d", mn, mx, att)
+		}
+	}
 	for c := 0; c < n; c++ {
 		out.P("#case rnd-%d", c)
 		genCase(r.Fork(), prop, out)
